@@ -32,18 +32,32 @@ fn m_eff(s: &Spec) -> usize {
     }
 }
 
-/// replace the first Echo leaf (depth first, input slot before the moving-average slot) by a stalled one
-fn stall_for_ever(s: &mut Spec) -> bool {
+/// replace the `which`-th Echo leaf (depth first; the moving-average slot of PFE/EFT counts too) by a stalled one
+fn stall_for_ever(s: &mut Spec, which: &mut usize) -> bool {
     if s.k == K::Echo {
-        *s = Spec::stall(NEVER, Spec::echo());
-        return true;
+        if *which == 0 {
+            *s = Spec::stall(NEVER, Spec::echo());
+            return true;
+        }
+        *which -= 1;
+        return false;
     }
     for k in s.kids.iter_mut() {
-        if stall_for_ever(k) {
+        if stall_for_ever(k, which) {
             return true;
         }
     }
     false
+}
+
+fn echo_leaves(s: &Spec) -> usize {
+    let mut n = 0;
+    s.walk(&mut |x| {
+        if x.k == K::Echo {
+            n += 1
+        }
+    });
+    n
 }
 
 pub struct Meas {
@@ -305,8 +319,14 @@ impl Prop for C18 {
         // a node that stalls for ever (6% of the runs outside the ultra-long block): everything above it waits,
         // for hundreds of thousands of deliveries, and must not queue anything while it does
         let mut tree = tree;
-        if !sys_ultra && r.chance(0.06) && stall_for_ever(&mut tree) {
-            sc.stat("stall_for_ever", 1);
+        if !sys_ultra && r.chance(0.06) {
+            let leaves = echo_leaves(&tree);
+            if leaves > 0 {
+                let mut which = r.below(leaves);
+                if stall_for_ever(&mut tree, &mut which) {
+                    sc.stat("stall_for_ever", 1);
+                }
+            }
         }
         let positive = tree.needs_positive_feed();
         let shape = if i < nw * n_shapes { (i / nw) as u8 } else { r.below(SHAPES.len()) as u8 };
